@@ -108,7 +108,7 @@ pub fn for_each_call(cfg: &RunCfg, label: &str, plan: &EncPlan, f: &mut dyn FnMu
                             item!({
                                 let mut c = Call::random(form, &mut rng, plan.addr7, 32);
                                 c.p[0] = via;
-                                c.blob = rng.bytes(4 * n);
+                                c.blob = crate::catalog::routing_entries(&mut rng, n);
                                 c
                             });
                         }
